@@ -451,11 +451,17 @@ inductive Step where
   | del (i : Nat) (k : PStr)                                   -- del tag_i[k]
   | ctor (i : Nat) (isXml : Bool)                              -- Tag(name=tag_i.name, attrs=tag_i.attrs, is_xml=…)
 
-/-- `copy.copy(tag)` = `Tag.copy_self` (element.py:1800-1836). First a builder-less `Tag(None, None, name, …,
-    self.attrs, is_xml=self._is_xml)` is made — its attribute pass (an HTML/XML container) only matters if it raises —
-    then `clone.attrs = self.attrs.__class__()` is filled with the original's values (lists in new lists), assigned
-    through that class's own `__setitem__`. -/
+/-- `copy.copy(tag)` = `Tag.copy_self` (element.py:1800-1836): a builder-less `Tag(None, None, name, …, None,
+    is_xml=self._is_xml)` (no attributes handed to the constructor), then `clone.attrs = self.attrs.__class__()` is
+    filled with the original's values (lists in new lists), assigned through that class's own `__setitem__`. -/
 def copyTag (maxDigits : Nat) (lower : PStr → PStr) (name : PStr) (t : TagAttrs) : Res TagAttrs :=
+  (tagInit maxDigits lower Option.none t.isXml name Option.none).bind fun t0 =>
+    (copyInto maxDigits t.cls t.items []).bind fun d => .ok { t0 with cls := t.cls, items := d }
+
+/-- `copy_self` as it was before fixes/C17-copy-no-constructor-pass.diff: the constructor was handed `self.attrs`, so
+    its builder-less attribute pass (an HTML/XML container) ran first and its result was thrown away — unless it
+    raised. -/
+def copyTagOld (maxDigits : Nat) (lower : PStr → PStr) (name : PStr) (t : TagAttrs) : Res TagAttrs :=
   (tagInit maxDigits lower Option.none t.isXml name (some (t.cls, t.items))).bind fun t0 =>
     (copyInto maxDigits t.cls t.items []).bind fun d => .ok { t0 with cls := t.cls, items := d }
 
